@@ -66,10 +66,11 @@ CHECKS = {
              "algorithm/value typed from its own text, no foreign path appears), C04_image_tables_are_read_back (every platform's table "
              "comes back with exactly its (name, path) entries and no other platform appears, for platforms not spelled '<x>-<arch>'; "
              "uses C04_written_section_names_are_distinct, also proved); C04_flat_variants_read_back (in a tree whose top-level variants have no children, every variant the reader returns is a written "
-             "one with its id/uid/name/type, no children and all seven path kinds as written); .discinfo: C04_discinfo_roundtrip (load_di (dump_di d) = d for "
+             "one with its id/uid/name/type, no children and all seven path kinds as written) and C04_flat_variants_are_all_read_back (conversely every "
+             "written non-addon variant whose UID has no comma is returned: the variants read are exactly the variants written); .discinfo: C04_discinfo_roundtrip (load_di (dump_di d) = d for "
              "canonical timestamp tokens, one-line description/arch, 'ALL' or integers of any size; the reader model load_di is "
              "compared with DiscInfo.loads on written and malformed four-line texts); C17_general_mirror covers "
-             "[general]. That the reader succeeds, nested child variants, and that EVERY written variant is returned, are decided by the "
+             "[general]. That the reader succeeds, and nested child variants, are decided by the "
              "docs_treeinfo correspondence: model "
              "writer vs real writer byte for byte; the section table the real parser produces from the written text is loaded by "
              "the model reader and compared with the re-read object; implementation-side oracle compares every fact and the "
